@@ -629,6 +629,12 @@ func opcodeCheckLockTimeVerify(op *ParsedOpcode, t *thread) error {
 		return nil
 	}
 
+	// Unlike the signature opcodes and OP_CHECKSEQUENCEVERIFY this opcode is not
+	// rejected by the parser when no transaction was supplied.
+	if t.tx == nil {
+		return errs.NewError(errs.ErrInvalidParams, "tx must be supplied for checklocktimeverify")
+	}
+
 	// The current transaction locktime is a uint32 resulting in a maximum
 	// locktime of 2^32-1 (the year 2106).  However, scriptNums are signed
 	// and therefore a standard 4-byte scriptNum would only support up to a
